@@ -53,6 +53,7 @@ def run(ctx):
                    "the division by a word length is dominated by a non-zero test on that length" if ok else
                    "a word length is used as divisor without a dominating non-zero test: the operation panics on the empty word instead of returning a (reduced) word", b.span_of(bi))
     ctx.floor("divisions by a word length in free_words", nd, 1)
+    ordering(ctx, ctx.facts.getters())
     # ---- all rotations and their inverses (T4): relator_permutations / relator_representative
     ctx.clauses.append("relator permutation set / representative range over all rotations 0..len() and both the rotation and its inverse (T4)")
     gg = ctx.facts.getters()
@@ -110,6 +111,103 @@ def run(ctx):
             ctx.ob("T8-derived-eq", FW, tr, "ok", "derived on the single field w")
         else:
             ctx.ob("T8-derived-eq", FW, tr, "undecided", "hand-written impl: agreement with Ord not decided")
+
+
+def ordering(ctx, g):
+    """Ord for FreeWord is lexicographic with a total order on letters and the LENGTHS as tie-break: positions 0..min(len, len) are compared
+    with the same index on both sides; a decision inside the loop is taken only at a difference; the letter comparison (decided by evaluating
+    the path conditions of the in-loop returns for all pairs of letters in -3..3) is antisymmetric, total and transitive; when one word is
+    a prefix of the other the result is self.len().cmp(&other.len()) of the two words' own lengths"""
+    ctx.clauses.append("cmp is a strict total order compatible with ==: lexicographic, total letter order, length tie-break (T4/T9, letter order decided on all pairs)")
+    b = ctx.body("<fpgroups::free_words::FreeWord as std::cmp::Ord>::cmp")
+    ctx.scan([b])
+    me, ot = ("param", 1, b.debug.get(1, "")), ("param", 2, b.debug.get(2, ""))
+    lw = lambda p: ("call", "std::vec::Vec::<T, A>::len", (("field", p, "w"),))
+    rets = [(bi, [strip(norm(b.origin(x), g)) for x in t["args"]]) for bi, t in b.calls("Ord::cmp") if t["dest"]["l"] == 0 and not t["dest"]["p"]]
+    loops = natural_loops(b)
+    inl = [(bi, a) for bi, a in rets if any(bi in bl for h, bl in loops)]
+    outl = [(bi, a) for bi, a in rets if not any(bi in bl for h, bl in loops)]
+    # also returns inside the loop body that are not in the natural loop (they leave it): classify by dominating Some-edge of next()
+    if not inl:
+        inl = [(bi, a) for bi, a in rets if any(atom_norm(x, g)[0] == "variant" and atom_norm(x, g)[2] == 1 and is_call(atom_norm(x, g)[1], "Iterator::next") for x in b.facts_at(bi))]
+        outl = [r for r in rets if r not in inl]
+    ctx.floor("letter comparisons returned from inside the loop of cmp", len(inl), 1)
+    # tie-break
+    okt = len(outl) == 1 and [strip(x) for x in outl[0][1]] == [lw(me), lw(ot)]
+    ctx.ob("T9-ordering", b.name, "tie-break", "ok" if okt else "violation",
+           "after the common prefix the result is self.w.len().cmp(&other.w.len())" if okt else
+           "the tie-break after the common prefix is not self.w.len().cmp(&other.w.len()): %s - a word and its proper prefix compare as Equal (or the wrong way round)" % [[show(x, 1)[:30] for x in a] for bi, a in outl])
+    # positions
+    X = Y = None
+    for bi, a in inl:
+        for x in a:
+            if is_call(x, "Index::index") or x[0] == "index":
+                base = strip(x[2][0]) if x[0] == "call" else strip(x[1])
+                if base == ("field", me, "w"):
+                    X = x
+                if base == ("field", ot, "w"):
+                    Y = x
+    okp = X is not None and Y is not None
+    if okp:
+        ix = X[2][1] if X[0] == "call" else X[2]
+        iy = Y[2][1] if Y[0] == "call" else Y[2]
+        r = loop_range_of_payload(b, ix, g)
+        okp = ix == iy and r is not None and r[0] == ("int", 0) and not r[2] and is_call(r[1], "Ord::min") and {strip(x) for x in r[1][2]} == {lw(me), lw(ot)}
+    ctx.ob("T9-ordering", b.name, "positions", "ok" if okp else "violation",
+           "letters self.w[i], other.w[i] at the same position i in 0..min(len, len)" if okp else "the letters compared are not self.w[i] and other.w[i] for i in 0..min(self.w.len(), other.w.len())")
+    if not okp:
+        return
+    # letter order: evaluate the path conditions of one iteration
+    hdrs = [h for h, bl in loops]
+    ent = None
+    for hh, e, it in loops_in(b):
+        ent = e
+    if ent is None:
+        ctx.ob("T9-ordering", b.name, "letter order", "violation", "the comparison loop was not found")
+        return
+    targets = {bi for bi, a in inl}
+    cont = set(hdrs)
+    paths = paths_to(b, ent, targets | cont, stop=(), g=g)
+    retargs = dict(inl)
+    letters = [v for v in range(-3, 4) if v != 0]
+    tab = {}
+    bad = None
+    for x in letters:
+        for y in letters:
+            hits = []
+            for tgt, atoms in paths:
+                vals = [eval_atom_env(a, {X: x, Y: y}) for a in atoms if any(isinstance(z, tuple) and contains(z, lambda s_: s_ in (X, Y)) for z in a[1:])]
+                if any(v is None for v in vals):
+                    bad = bad or "a branch condition of the letter comparison cannot be evaluated: %s" % [show_atom(a)[:50] for a in atoms][:2]
+                    continue
+                if all(vals):
+                    hits.append(tgt)
+            hits = sorted(set(hits))
+            if len(hits) != 1:
+                bad = bad or "for letters (%d, %d) %d outcomes are possible" % (x, y, len(hits))
+                continue
+            if hits[0] in cont:
+                tab[(x, y)] = 0
+            else:
+                a0, a1 = [eval_term_env(z, {X: x, Y: y}) for z in retargs[hits[0]]]
+                if a0 is None or a1 is None:
+                    bad = bad or "the value returned for letters (%d, %d) is not a comparison of the two letters" % (x, y)
+                    continue
+                tab[(x, y)] = (a0 > a1) - (a0 < a1)
+    if not bad:
+        for x in letters:
+            for y in letters:
+                if (tab[(x, y)] == 0) != (x == y):
+                    bad = bad or "letters %d and %d compare as %s" % (x, y, "equal" if tab[(x, y)] == 0 else "different although equal")
+                elif tab[(x, y)] != -tab[(y, x)]:
+                    bad = bad or "the letter order is not antisymmetric: cmp(%d, %d) = %d but cmp(%d, %d) = %d" % (x, y, tab[(x, y)], y, x, tab[(y, x)])
+        for x in letters:
+            for y in letters:
+                for z in letters:
+                    if not bad and tab[(x, y)] < 0 and tab[(y, z)] < 0 and not tab[(x, z)] < 0:
+                        bad = "the letter order is not transitive: %d < %d < %d but not %d < %d" % (x, y, z, x, z)
+    ctx.ob("T9-ordering", b.name, "letter order", "ok" if not bad else "violation",
+           "the letter comparison is a strict total order on the 6 letters -3..3 (36 pairs, 216 triples); a decision is taken exactly at a difference" if not bad else bad)
 
 
 def check_normalized(ctx, nb):
